@@ -21,9 +21,101 @@ pub fn sig_of(op: &str, out: &OpOut) -> String {
     }
 }
 
+/// Calls with unusual but well-formed arguments (identifiers and revisions that exist but are "the wrong ones",
+/// or that are unknown), each on a rebuilt copy of the state when it mutates: they may fail, they must return.
+fn odd_calls(sc: &Scenario, hist: &[Op], cx: &mut Cx) {
+    use crate::guard::call;
+    let w0 = sc.build(hist);
+    if w0.any_dead() {
+        return;
+    }
+    let report = |cx: &mut Cx, what: &str, r: Result<(), String>| {
+        cx.count("odd_argument_calls");
+        if let Err(p) = r {
+            let out = if p.starts_with(crate::guard::HANG_PREFIX) { OpOut::Hang(p.clone()) } else { OpOut::Panic(p.clone()) };
+            let kind = what.split('(').next().unwrap_or(what);
+            cx.violation("C08", &sig_of(&format!("odd-{}", kind), &out), sc, hist, json!({"call": what, "outcome": out.text()}));
+        }
+    };
+    for r in 0..sc.nrep {
+        w0.focus();
+        let m = &w0.reps[r].m;
+        let objs: Vec<String> = m.get_all_objects().into_iter().collect();
+        let mut revs: Vec<(String, Vec<String>)> = vec![];
+        for u in &objs {
+            revs.push((u.clone(), m.verif_dump_tree(u).unwrap_or_default().into_iter().map(|(r, _, _)| r).collect()));
+        }
+        // read-only queries
+        for (u, rs) in &revs {
+            // (syntactically invalid revision strings are not well-formed input and are left out)
+            for rv in rs.iter().chain(["1-ffff".to_string(), "3-d_0000000".to_string(), "2-r_1234567".to_string()].iter()) {
+                report(cx, &format!("get_value({}, {})", u, rv), call("get_value", || { let _ = m.get_value(u, Some(rv)); }));
+                report(cx, &format!("get_parent_revision({}, {})", u, rv), call("get_parent_revision", || { let _ = m.get_parent_revision(u, rv); }));
+            }
+            report(cx, &format!("read(Some({}))", u), call("read(root)", || { let _ = m.read(Some(u)); }));
+        }
+        for u in ["nope", "", "^nope@l\u{266D}", "\u{221A}x"] {
+            report(cx, &format!("get_value({}, None)", u), call("get_value", || { let _ = m.get_value(u, None); }));
+            report(cx, &format!("get_winner({})", u), call("get_winner", || { let _ = m.get_winner(u); }));
+            report(cx, &format!("get_conflicting({})", u), call("get_conflicting", || { let _ = m.get_conflicting(u); }));
+            report(cx, &format!("read(Some({}))", u), call("read(root)", || { let _ = m.read(Some(u)); }));
+        }
+        // mutating calls, each on a rebuilt copy
+        let mut jobs: Vec<(String, Box<dyn Fn(&mut melda::melda::Melda) + Send + Sync>)> = vec![];
+        for (i, (u, rs)) in revs.iter().enumerate() {
+            // the winner of an object that is not in conflict, a non-leaf revision, a revision of ANOTHER object, garbage
+            let mut cands: Vec<String> = vec![];
+            if let Some(first) = rs.first() { cands.push(first.clone()); }
+            if let Some(last) = rs.last() { cands.push(last.clone()); }
+            if let Ok(wn) = m.get_winner(u) { cands.push(wn); }
+            if let Some((_, other)) = revs.get((i + 1) % revs.len()) { if let Some(o) = other.last() { cands.push(o.clone()); } }
+            cands.push("7-ffff_0000000".into());
+            cands.sort();
+            cands.dedup();
+            for c in cands {
+                let (u2, c2) = (u.clone(), c.clone());
+                jobs.push((format!("resolve_as({}, {})", u, c), Box::new(move |mm| { let _ = mm.resolve_as(&u2, &c2); let _ = mm.read(None); let _ = mm.commit(None); let _ = mm.read(None); })));
+            }
+            let u3 = u.clone();
+            jobs.push((format!("delete_object({}) twice + commit", u), Box::new(move |mm| { let _ = mm.delete_object(&u3); let _ = mm.delete_object(&u3); let _ = mm.read(None); let _ = mm.commit(None); let _ = mm.read(None); })));
+            let u4 = u.clone();
+            jobs.push((format!("remove_object({}) + read + commit", u), Box::new(move |mm| { let _ = mm.remove_object(&u4); let _ = mm.read(None); let _ = mm.commit(None); let _ = mm.read(None); })));
+            // (writing arbitrary content into an array descriptor through the object API is not well-formed input)
+            if u.starts_with('^') {
+                continue;
+            }
+            let u5 = u.clone();
+            jobs.push((format!("create_object({}, {{}}) + update_object + read", u), Box::new(move |mm| {
+                let _ = mm.create_object(&u5, serde_json::Map::new());
+                let _ = mm.update_object(&u5, json!({"odd": 1}).as_object().unwrap().clone());
+                let _ = mm.read(None);
+                let _ = mm.commit(None);
+            })));
+        }
+        jobs.push(("resolve_as(nope, 1-ffff)".into(), Box::new(|mm| { let _ = mm.resolve_as("nope", "1-ffff"); })));
+        jobs.push(("reload_until({})".into(), Box::new(|mm| { let _ = mm.reload_until(&std::collections::BTreeSet::new()); let _ = mm.read(None); let _ = mm.reload(); let _ = mm.read(None); })));
+        jobs.push(("replay_stage(None)".into(), Box::new(|mm| { let _ = mm.replay_stage(&None); let _ = mm.read(None); })));
+        jobs.push(("replay_stage(own stage) twice".into(), Box::new(|mm| { let s = mm.stage().ok().flatten(); let _ = mm.replay_stage(&s); let _ = mm.replay_stage(&s); let _ = mm.read(None); let _ = mm.commit(None); })));
+        jobs.push(("refresh twice, reload twice".into(), Box::new(|mm| { let _ = mm.refresh(); let _ = mm.refresh(); let _ = mm.reload(); let _ = mm.reload(); let _ = mm.read(None); })));
+        jobs.push(("unstage twice".into(), Box::new(|mm| { let _ = mm.unstage(); let _ = mm.unstage(); let _ = mm.read(None); })));
+        jobs.push(("snapshot, unstage, snapshot, commit".into(), Box::new(|mm| { let _ = mm.stage_full_snapshot(); let _ = mm.unstage(); let _ = mm.stage_full_snapshot(); let _ = mm.commit(None); let _ = mm.read(None); })));
+        jobs.push(("meld with a second replica on the SAME storage".into(), Box::new(|mm| {
+            if let Ok(twin) = melda::melda::Melda::new(mm.get_adapter()) { let _ = mm.meld(&twin); let _ = twin.meld(mm); let _ = mm.refresh(); let _ = mm.read(None); }
+        })));
+        for (what, job) in jobs {
+            let mut w = sc.build(hist);
+            w.focus();
+            let mm = &mut w.reps[r].m;
+            report(cx, &what, call(&what, || job(mm)));
+        }
+    }
+}
+
 /// Every operation of the full alphabet is attempted once in every state.
 pub struct AllOpsProbe {
     pub full: Vec<Op>,
+    /// also try the odd-argument calls (in states at most this many operations beyond the prologue)
+    pub odd_within: Option<usize>,
 }
 
 impl Probe for AllOpsProbe {
@@ -51,6 +143,11 @@ impl Probe for AllOpsProbe {
             cx.outcome(crate::world::sha_hex(s.as_bytes()));
         }
         drop(w);
+        if let Some(k) = self.odd_within {
+            if hist.len() <= sc.prologue.len() + k {
+                odd_calls(sc, hist, cx);
+            }
+        }
         for op in &self.full {
             let mut w = sc.build(hist);
             let o = w.apply(op);
@@ -201,7 +298,7 @@ pub fn run(thorough: bool) {
             let full = full_alphabet(sc.nrep, sc.menu.docs.len());
             let ex = Explorer {
                 sc: sc.clone(),
-                probes: vec![Arc::new(AllOpsProbe { full })],
+                probes: vec![Arc::new(AllOpsProbe { full, odd_within: if pool == 1 { Some(if thorough { 2 } else if sc.name.starts_with("x-") { 0 } else { 1 }) } else { None } })],
                 limits: Limits {
                     pool_size: pool,
                     time_budget: Duration::from_secs(if thorough { 1500 } else { 25 }),
